@@ -216,4 +216,21 @@ Definition ns_closed_m : json -> pmode -> string -> bool :=
        end).
 Definition ns_closed (j : json) : bool := ns_closed_m j PSchema "".
 Definition show_closed (j : json) : string := show_bool (ns_closed j).
-Definition show_valid_strict (j : json) : string := show_bool (valid_strict j).
+
+(** the whole parsed schema as text (markers removed, floats as {"$f": bits}), for comparing the
+    model's parse output with the implementation's key by key *)
+Definition print_jsonf : json -> string :=
+  jfold
+    (fun j => match j with
+              | JFloat b => "{""$f"":" ++ show_Z b ++ "}"
+              | _ => print_json j
+              end)
+    (fun _ rs => "[" ++ join "," rs ++ "]")
+    (fun _ rs => "{" ++ join "," (map (fun p => quote (fst p) ++ ":" ++ snd p) rs) ++ "}").
+
+Definition strip_markers : json -> json :=
+  jfold (fun j => j) (fun _ rs => JArr rs)
+        (fun kv _ => JObj (jdrop ["__fastavro_parsed"; "__named_schemas"] kv)).
+
+Definition show_parsed (j : json) : string :=
+  hexs (show_pres (fun r => print_jsonf (strip_markers (fst r))) (parse_auto j)).
